@@ -12,6 +12,8 @@ dst = f"/verif/seeded/{a.name}"
 os.makedirs(dst, exist_ok=True)
 shutil.copy(os.path.join(a.src, "patch.diff"), os.path.join(dst, "patch.diff"))
 shutil.copy(os.path.join(a.src, "demo.rs"), os.path.join(dst, "demo.rs"))
+if os.path.exists(os.path.join(a.src, "cargo_args")):
+    shutil.copy(os.path.join(a.src, "cargo_args"), os.path.join(dst, "cargo_args"))
 if os.path.exists(os.path.join(a.src, "notes.md")):
     shutil.copy(os.path.join(a.src, "notes.md"), os.path.join(dst, "notes.md"))
 head = subprocess.check_output(["git", "-C", "/repo", "rev-parse", "--short", "HEAD"], text=True).strip()
